@@ -148,16 +148,25 @@ func wfSerializers(r *rand.Rand) []serializer {
 		enc := enc
 		ss = append(ss, serializer{"mice.Encode " + string(enc), func(w io.Writer) (int64, bool, error) { _, err := enc.Encode(w, payload, 16); return 0, false, err }})
 	}
-	ss = append(ss, serializer{"mice.Encode empty draft2", func(w io.Writer) (int64, bool, error) { _, err := mice.Draft02Encoding.Encode(w, nil, 16); return 0, false, err }})
+	ss = append(ss, serializer{"mice.Encode empty draft2", func(w io.Writer) (int64, bool, error) {
+		_, err := mice.Draft02Encoding.Encode(w, nil, 16)
+		return 0, false, err
+	}})
 	// CBOR encoder methods
 	big := randBytes(r, 300)
-	ss = append(ss, serializer{"cbor.EncodeUint", func(w io.Writer) (int64, bool, error) { return 0, false, verifapi.NewCborEncoder(w).EncodeUint(1 << 40) }})
+	ss = append(ss, serializer{"cbor.EncodeUint", func(w io.Writer) (int64, bool, error) {
+		return 0, false, verifapi.NewCborEncoder(w).EncodeUint(1 << 40)
+	}})
 	ss = append(ss, serializer{"cbor.EncodeInt", func(w io.Writer) (int64, bool, error) { return 0, false, verifapi.NewCborEncoder(w).EncodeInt(-70000) }})
-	ss = append(ss, serializer{"cbor.EncodeByteString", func(w io.Writer) (int64, bool, error) { return 0, false, verifapi.NewCborEncoder(w).EncodeByteString(big) }})
+	ss = append(ss, serializer{"cbor.EncodeByteString", func(w io.Writer) (int64, bool, error) {
+		return 0, false, verifapi.NewCborEncoder(w).EncodeByteString(big)
+	}})
 	ss = append(ss, serializer{"cbor.EncodeTextString", func(w io.Writer) (int64, bool, error) {
 		return 0, false, verifapi.NewCborEncoder(w).EncodeTextString("hello, world: a text string longer than 23 bytes")
 	}})
-	ss = append(ss, serializer{"cbor.EncodeArrayHeader", func(w io.Writer) (int64, bool, error) { return 0, false, verifapi.NewCborEncoder(w).EncodeArrayHeader(70000) }})
+	ss = append(ss, serializer{"cbor.EncodeArrayHeader", func(w io.Writer) (int64, bool, error) {
+		return 0, false, verifapi.NewCborEncoder(w).EncodeArrayHeader(70000)
+	}})
 	ss = append(ss, serializer{"cbor.EncodeBool", func(w io.Writer) (int64, bool, error) { return 0, false, verifapi.NewCborEncoder(w).EncodeBool(true) }})
 	ss = append(ss, serializer{"cbor.EncodeMap", func(w io.Writer) (int64, bool, error) {
 		var mes []*verifapi.CborMapEntryEncoder
